@@ -239,6 +239,46 @@ def readout (s : State) : State × Entry :=
   let r := run s (readoutEvents s)
   (r.1, buildEntry r.1 r.2)
 
+/-! ## A readout interleaved with other threads: the walk, then the unit map
+
+`MetricRecorderInner::readout` hands `V::readout` a *closure* for the unit map; `V::readout` walks the registry
+(`visit_counters`, `visit_gauges`, `visit_histograms`: the steps `swapC` / `gload` / `hswap`) and only then evaluates
+the closure (`units: units()`). Between any two of these steps other threads run. `tagged` is one such interleaving:
+`(true, e)` is a step of this readout's walk, `(false, e)` a step of another thread (an updater, a `describe_*`, a
+registration, a step of another readout). The unit map is read after the last event of the list. -/
+
+/-- runs every event; only the observations of this readout's own steps are collected -/
+def runTagged (s : State) : List (Bool × Ev) → State × List Obs
+  | [] => (s, [])
+  | (mine, e) :: es =>
+    let r1 := step s e
+    let r2 := runTagged r1.1 es
+    (r2.1, (if mine then r1.2 else []) ++ r2.2)
+
+/-- the histogram keys this walk visited (first occurrences, in order) -/
+def histKeys : List Obs → List Key
+  | [] => []
+  | .bucket k _ _ :: os => if k ∈ histKeys os then histKeys os else k :: histKeys os
+  | _ :: os => histKeys os
+
+/-- the entry of a readout whose walk observed `obs` and whose unit map is `units` -/
+def buildEntryWalk (emitZero : Bool) (units : Nat → Nat) (obs : List Obs) : Entry :=
+  { hasTimestamp := true, allowSplit := true,
+    counters := counterItems emitZero units obs,
+    gauges := gaugeItems units obs,
+    hists := histItems units (histKeys obs) obs }
+
+/-- the code's order: walk (interleaved with everybody else), then read the unit map -/
+def readoutInterleaved (s : State) (tagged : List (Bool × Ev)) : Entry :=
+  let r := runTagged s tagged
+  buildEntryWalk r.1.emitZero r.1.unitOf r.2
+
+/-- the other order — the unit map cloned before the walk (NOT what the code does; `Props/C20.lean` shows by a
+concrete interleaving that this order loses the unit of a metric described and registered during the walk) -/
+def readoutUnitsFirst (s : State) (tagged : List (Bool × Ev)) : Entry :=
+  let r := runTagged s tagged
+  buildEntryWalk r.1.emitZero s.unitOf r.2
+
 /-- a sequential script: updater steps and whole readouts -/
 inductive Op where
   | ev (e : Ev)
